@@ -640,7 +640,7 @@ def declare_tokens(ex: Explorer, text: str, min_len: dict[str, int] | None = Non
 
 def sentence_tokens(text: str) -> set[str]:
     """Tokens directly followed by sentence punctuation need L>=2 (the real heuristic wants two letters)."""
-    return set(m.group(1) for m in re.finditer(r"(q[a-z][a-z])(?=[.?!])", text))
+    return set(m.group(1) for m in re.finditer(r"(q[a-z][a-z])(?=['\"\u2019\u201d)]?[.?!])", text))
 
 
 def instantiate(text: str, model: dict[str, int]) -> str:
